@@ -297,6 +297,12 @@ func gen(r *sim.Rng, tier string) *sim.Case {
 		p["gkind"] = r.N(5)
 		p["api"] = r.N(5)
 	}
+	if (p["scen"] <= 2 || p["scen"] == 8) && r.Pct(3) {
+		p["ivedge"] = 1 + r.N(8)
+		if p["plen"] < 80 {
+			p["plen"] = 80 + r.N(200) // several blocks, so that the counter is incremented past the carry
+		}
+	}
 	c.EnvSeed = r.U64() >> 12
 	return c
 }
@@ -315,6 +321,17 @@ type world struct {
 
 func viol(class, site, format string, a ...any) *sim.Violation {
 	return &sim.Violation{Class: class, Site: "cryptz." + site, Detail: fmt.Sprintf(format, a...)}
+}
+
+var ivEdge = []struct {
+	secret string
+	mode   int // scrand.Mode that makes the salt
+	iv     string
+}{
+	{"key-1970207", 3, "2d0093c1465cce2e5b377c14fffffffd"},
+	{"key-109438002", 2, "f899e431f8876adcd04a950efffffffd"},
+	{"key-405904260", 3, "c08b9c839bdbc0f87703a79ffffffffc"},
+	{"key-523782547", 1, "678391ba7031b87caa070712fffffff8"},
 }
 
 func setEntropy(p map[string]int) {
@@ -455,7 +472,7 @@ func (w *world) peerReader(data []byte, pol int) (io.Reader, func() int) {
 // what lies between len and cap of a slice the caller passes belongs to the caller too.
 func (w *world) spare(b []byte) []byte {
 	if w.c.EnvSeed&1 == 0 {
-		return b
+		return b[:len(b):len(b)] // no spare capacity at all
 	}
 	k := 16 + int(w.c.EnvSeed>>1)%33
 	buf := make([]byte, len(b)+k)
@@ -498,6 +515,21 @@ func exec(c *sim.Case, out *sim.WorkerOut) (*sim.Violation, bool) {
 		}
 	}
 	setEntropy(p)
+	if k := p["ivedge"]; k > 0 {
+		// a (secret, salt) pair whose derived IV is about to carry out of its low 32 bits: the
+		// IV is a hash output nobody can steer, so such pairs were searched for once with the
+		// reference derivation (about 2^29 candidates each); the salt is what the entropy
+		// source delivers in the named mode
+		e := ivEdge[(k-1)%len(ivEdge)]
+		w.secret = w.spare([]byte(e.secret))
+		scrand.Mode = e.mode
+		scrand.MaxChunk = 0
+		salt := [][]byte{nil, make([]byte, 8), bytes.Repeat([]byte{0xFF}, 8), {1, 2, 3, 4, 5, 6, 7, 8}}[e.mode]
+		if _, iv := evp(w.secret, salt); hex.EncodeToString(iv) != e.iv {
+			panic("c09: the IV table does not match the reference derivation")
+		}
+		w.stats["derived_iv_about_to_carry_out_of_32_bits"]++
+	}
 	scen := p["scen"]
 	if scen < 0 || scen >= len(scenNames) {
 		scen = 0
